@@ -13,6 +13,7 @@ import (
 	"github.com/PowerDNS/lightningstream/config"
 	"github.com/PowerDNS/lightningstream/lmdbenv/dbiflags"
 	"github.com/PowerDNS/lightningstream/lmdbenv/header"
+	"github.com/PowerDNS/lightningstream/snapshot"
 	"github.com/PowerDNS/lightningstream/syncer"
 	"github.com/PowerDNS/lmdb-go/lmdb"
 	"pgregory.net/rapid"
@@ -59,6 +60,123 @@ type C18Case struct {
 	Cancel bool         `json:"cancel,omitempty"`
 	Reader bool         `json:"reader,omitempty"`
 	Inject string       `json:"inject"` // label of the injected failure (generator's intent; the oracle does not trust it)
+	// Wire: one entry of the encoded snapshot is damaged at the protobuf wire
+	// level (the DBI framing stays valid, the entry's content is not a
+	// well-formed message any more)
+	Wire *C18Wire `json:"wire,omitempty"`
+}
+
+type C18Wire struct {
+	DBI   int    `json:"dbi"`   // index into Snap
+	Entry int    `json:"entry"` // index into its entries
+	Kind  string `json:"kind"`  // fixed64 | fixed32 | bytes | varint | tag | wt6 | wt7 | cut
+	Field int    `json:"field"` // unknown field number carrying the damage
+	Keep  int    `json:"keep"`  // payload bytes present (kind specific)
+	Len   int    `json:"len"`   // declared payload length (kind bytes)
+	Head  bool   `json:"head"`  // damage placed before the known fields instead of after them
+}
+
+// c18Damage returns the damaged content of one encoded entry, or nil when the
+// result would still be a well-formed message.
+func c18Damage(content []byte, w C18Wire) []byte {
+	var junk []byte
+	tag := func(wt int) []byte { return model.AppendVarint(nil, uint64(w.Field)<<3|uint64(wt)) }
+	fill := func(n int) []byte { return bytes.Repeat([]byte{0x41}, n) }
+	switch w.Kind {
+	case "fixed64":
+		junk = append(tag(model.WTFixed64), fill(w.Keep%8)...)
+	case "fixed32":
+		junk = append(tag(model.WTFixed32), fill(w.Keep%4)...)
+	case "bytes":
+		l := w.Len
+		if l < 1 {
+			l = 1
+		}
+		junk = append(model.AppendVarint(tag(model.WTBytes), uint64(l)), fill(w.Keep%l)...)
+	case "varint":
+		junk = append(tag(model.WTVarint), bytes.Repeat([]byte{0x80}, 1+w.Keep%3)...)
+	case "tag":
+		junk = bytes.Repeat([]byte{0xff}, 1+w.Keep%3)
+	case "wt6":
+		junk = tag(6)
+	case "wt7":
+		junk = tag(7)
+	case "cut":
+		k := 1 + w.Keep
+		if k >= len(content) {
+			return nil
+		}
+		out := append([]byte(nil), content[:len(content)-k]...)
+		if _, err := model.ParseMsg(out); err == nil {
+			return nil
+		}
+		return out
+	default:
+		return nil
+	}
+	var out []byte
+	if w.Head && w.Kind != "tag" && w.Kind != "varint" {
+		// a truncated field can only sit at the end of the message: at the head it
+		// swallows the following bytes instead. Only self-contained damage goes first.
+		if w.Kind == "wt6" || w.Kind == "wt7" {
+			out = append(append(out, junk...), content...)
+		} else {
+			out = append(append(out, content...), junk...)
+		}
+	} else {
+		out = append(append(out, content...), junk...)
+	}
+	if _, err := model.ParseMsg(out); err == nil {
+		return nil
+	}
+	return out
+}
+
+// c18Encode encodes the snapshot with the reference codec and applies the wire
+// damage. It reports whether an entry of a non-private DBI is now malformed.
+func c18Encode(m model.Snap, w *C18Wire) (pb []byte, damaged bool, err error) {
+	pb, err = m.ToGogo().Marshal()
+	if err != nil || w == nil {
+		return pb, false, err
+	}
+	tree, err := model.ParseSnapshotTree(pb)
+	if err != nil {
+		return nil, false, err
+	}
+	dbs := model.Messages(&tree, model.LevelDBI)
+	if w.DBI >= len(dbs) {
+		return pb, false, nil
+	}
+	n := 0
+	for i := range *dbs[w.DBI] {
+		it := &(*dbs[w.DBI])[i]
+		if it.Field != model.DBIEntries || !it.IsSub {
+			continue
+		}
+		if n == w.Entry {
+			content := c18Damage(model.EncodeMsg(it.Sub), *w)
+			if content == nil {
+				return pb, false, nil
+			}
+			it.IsSub, it.Sub, it.Bytes = false, nil, content
+			out := model.EncodeMsg(tree)
+			// framing must still be valid down to the DBI level
+			top, err := model.ParseMsg(out)
+			if err != nil {
+				return nil, false, fmt.Errorf("harness: damaged snapshot lost its framing: %v", err)
+			}
+			for _, t := range top {
+				if t.Field == model.SnapDatabases && t.WT == model.WTBytes {
+					if _, err := model.ParseMsg(t.Bytes); err != nil {
+						return nil, false, fmt.Errorf("harness: damaged snapshot lost its DBI framing: %v", err)
+					}
+				}
+			}
+			return out, true, nil
+		}
+		n++
+	}
+	return pb, false, nil
 }
 
 var c18Names = []string{"d0", "d1", "d2", "d3", "n0", "n1"}
@@ -78,8 +196,11 @@ type c18Expect struct {
 	clean   bool   // nothing that could legitimately fail: must succeed
 }
 
-func c18Classify(c C18Case, existing map[string]bool) c18Expect {
+func c18Classify(c C18Case, existing map[string]bool, damaged bool) c18Expect {
 	exp := c18Expect{clean: true}
+	if damaged && !strings.HasPrefix(c.Snap[c.Wire.DBI].Name, "_sync") {
+		exp.mustErr = "entry that is not a well-formed protobuf message"
+	}
 	nonPrivate := 0
 	for _, d := range c.Snap {
 		if strings.HasPrefix(d.Name, "_sync") {
@@ -223,7 +344,6 @@ func checkC18(c C18Case, o *vcore.Obs) error {
 	if err != nil {
 		return err
 	}
-	exp := c18Classify(c, existing)
 
 	// ---- snapshot
 	snap := model.Snap{FormatVersion: c.FV, CompatVersion: c.CV, Meta: model.Meta{InstanceID: "peer", DatabaseName: "db", TimestampNano: 77}}
@@ -242,7 +362,24 @@ func checkC18(c C18Case, o *vcore.Obs) error {
 		}
 		snap.DBIs = append(snap.DBIs, md)
 	}
-	upd := mkUpdate(snap, time.Unix(0, 77))
+	pb, damaged, err := c18Encode(snap, c.Wire)
+	if err != nil {
+		return err
+	}
+	exp := c18Classify(c, existing, damaged)
+	var cs snapshot.Snapshot
+	if err := cs.Unmarshal(pb); err != nil {
+		if !damaged {
+			return fmt.Errorf("harness: snapshot does not load: %v", err)
+		}
+		o.Class("wire-refused-at-decode")
+		o.NonTrivial(false)
+		return nil
+	}
+	upd := snapshot.Update{Snapshot: &cs, NameInfo: snapshot.NameInfo{Kind: snapshot.KindSnapshot, InstanceID: "peer", Timestamp: time.Unix(0, 77), SyncerName: "db", GenerationID: "GX", Extension: snapshot.DefaultExtension}}
+	if damaged {
+		o.Class("wire-" + c.Wire.Kind)
+	}
 
 	// ---- concurrent reader over two pre-existing DBIs (handles opened before the merge starts)
 	var readerErr atomic.Value
@@ -573,7 +710,7 @@ func genC18(t *rapid.T) C18Case {
 		}
 	}
 	// injected failure
-	c.Inject = rapid.SampledFrom([]string{"none", "none", "transform", "malformed", "rawvalue", "mapfull", "cancel", "private", "override", "dupsort"}).Draw(t, "inject")
+	c.Inject = rapid.SampledFrom([]string{"none", "none", "transform", "malformed", "wire", "rawvalue", "mapfull", "cancel", "private", "override", "dupsort"}).Draw(t, "inject")
 	pick := func() *C18SnapDBI { return &c.Snap[rapid.IntRange(0, len(c.Snap)-1).Draw(t, "which")] }
 	switch c.Inject {
 	case "transform":
@@ -608,6 +745,26 @@ func genC18(t *rapid.T) C18Case {
 		e := C18Entry{Key: k, TS: 99, Val: model.ValOf([]byte("bad"))}
 		pos := rapid.IntRange(0, len(d.Entries)).Draw(t, "mpos")
 		d.Entries = append(d.Entries[:pos:pos], append([]C18Entry{e}, d.Entries[pos:]...)...)
+	case "wire":
+		var cands []int
+		for i, d := range c.Snap {
+			if len(d.Entries) > 0 {
+				cands = append(cands, i)
+			}
+		}
+		if len(cands) == 0 {
+			c.Inject = "none"
+			break
+		}
+		di := cands[rapid.IntRange(0, len(cands)-1).Draw(t, "wdbi")]
+		c.Wire = &C18Wire{DBI: di,
+			Entry: rapid.IntRange(0, len(c.Snap[di].Entries)-1).Draw(t, "wentry"),
+			Kind:  rapid.SampledFrom([]string{"fixed64", "fixed32", "bytes", "bytes", "varint", "tag", "wt6", "wt7", "cut"}).Draw(t, "wkind"),
+			Field: rapid.SampledFrom([]int{5, 15, 16, 100, 2047, 2048, 1 << 20}).Draw(t, "wfield"),
+			Keep:  rapid.IntRange(0, 12).Draw(t, "wkeep"),
+			Len:   rapid.SampledFrom([]int{1, 1, 2, 5, 127, 128, 300}).Draw(t, "wlen"),
+			Head:  rapid.Bool().Draw(t, "whead"),
+		}
 	case "rawvalue":
 		if native && len(c.Pre) > 0 {
 			pi := rapid.IntRange(0, len(c.Pre)-1).Draw(t, "rawdbi")
@@ -700,7 +857,7 @@ func sortC18(int4 bool, es []C18Entry) {
 
 func TestC18Atomic(t *testing.T) {
 	vcore.Run(t, vcore.Config{Property: "C18", Inflight: true,
-		Rule: "rapid: pre-existing native or shadow LMDB (0-3 DBIs, plain / integer keys) + snapshot of 1-4 DBIs under format version 0..4 / compat 0..4 with one injected failure class (unsupported or inconsistent transform, dupsort flag, malformed key at any position, stored value without header, map full at a generated fill, cancellation, private DBIs, override_create_flags) and optionally a concurrent reader; error => byte-exact dump and LastTxnID unchanged; nil => reference merge (v1: empty = deletion); must-refuse and must-accept classes derived from the snapshot; " +
+		Rule: "rapid: pre-existing native or shadow LMDB (0-3 DBIs, plain / integer keys) + snapshot of 1-4 DBIs under format version 0..4 / compat 0..4 with one injected failure class (unsupported or inconsistent transform, dupsort flag, malformed key at any position, one entry damaged at the protobuf wire level (truncated unknown fixed32/fixed64/bytes/varint field, cut tag, invalid wire type, entry cut short; DBI framing intact), stored value without header, map full at a generated fill, cancellation, private DBIs, override_create_flags) and optionally a concurrent reader; error => byte-exact dump and LastTxnID unchanged; nil => reference merge (v1: empty = deletion); must-refuse and must-accept classes derived from the snapshot; " +
 			"non-trivial = refused after >=1 entry/DBI was applied, or accepted with >=2 DBIs under a non-current format version"},
 		genC18, checkC18)
 }
